@@ -144,7 +144,6 @@ struct Exec {
             if (nobj) return true;
             if (st.life == L_RAW) return false;
             if (st.life == L_INIT && !st.keyed) return false;      // data before any key: caller error, not a defined sequence
-            if ((o.flags & (F_NULLA | F_NULLOUT)) && o.size == 0) return false;
             return true;
         case OP_PENC: case OP_PDEC:
             if (!is_par(k)) return false;
